@@ -57,6 +57,32 @@ def minimise(v, max_runs=220):
     return minimise_scenario(v, replay, max_runs)
 
 
+def machine_only(scn, plan, res, cos):
+    from ..world import ModInfo, Sim
+    from ..monitors import Monitor
+    for cfg in scn['configs']:
+        co = cos[tuple(cfg)]
+        sim = Sim(ModInfo.get(co.bytes), scn['script'], plan, budget=c01.CAP)
+        mon = Monitor(sim, types=False, depth=True)
+        out = sim.run()
+        res.evals += 1
+        res.ticks += out['ticks']
+        res.count('machine_only_runs')
+        if out['hang']:
+            res.count('inconclusive_budget_exhausted')
+            continue
+        for cls, d in mon.problems:
+            name = 'stack-residue' if cls == 'C03:stack-depth' else cls.split(':', 1)[1]
+            res.violation(f'{PROP}:{name}', dict(d, config=cfg, plan=plan, machine_only=True),
+                          c01._mk(scn, plan, cfg), sig=dict(mon.sig()))
+            return
+        if out['exc'] is not None:
+            res.violation(f'{PROP}:outcome', {'what': 'host exception', 'exc': out['exc'],
+                                              'config': cfg, 'plan': plan, 'machine_only': True},
+                          c01._mk(scn, plan, cfg), sig={'exc': out['exc']['type']})
+            return
+
+
 def execute(scn):
     res = Result()
     cos = {}
@@ -78,7 +104,13 @@ def execute(scn):
         except Inconclusive as e:
             res.count('reference_inconclusive')
             res.count('inconclusive:' + str(e)[:40])
+            # no reference history: the machine-level half of the property
+            # still applies (dispatch to the armed handler, no operands left
+            # behind, no machine fault, no host exception)
+            machine_only(scn, plan, res, cos)
             first = False
+            if res.violations:
+                break
             continue
         ok = c01.compare(scn, plan, res, cos, ref, prop=PROP, monitor=True)
         if first and res.sample is None:
@@ -89,6 +121,8 @@ def execute(scn):
         if ok and ref.resumed:
             res.nontrivial.add(digest([scn['text'], plan]))
             res.count('runs_with_handled_error')
+        if ok and ref.header_errors:
+            res.count('probe_handled_error_in_block_header_line', ref.header_errors)
         for k, n in ref.dev.fired.items():
             res.count('reference_fired_' + k, n)
         if first and scn.get('enumerate') and ok:
